@@ -393,7 +393,10 @@ func (s *LinearState) doFindRules(ctx *Context, event Map) (map[string]Map, erro
 				}
 			}
 		default:
-			panic(fmt.Errorf("rule %#v bad type", rule))
+			// Something that is not a rule stored under the
+			// property "rule".  IndexedState treats that as a
+			// plain fact; do the same instead of panicking.
+			Log(WARN, ctx, "LinearState.FindRules", "name", s.Name, "id", id, "warning", fmt.Sprintf("rule %#v bad type", rule))
 		}
 	}
 
